@@ -146,6 +146,14 @@ func (l *Lin) String() string {
 
 // isWholeSum recognises acc(+; 0; elem(X).field): the raw sum of a field over the whole range of X.
 func isWholeSum(e *Ex, x, field string) bool {
+	if e != nil && e.K == "call" && e.Call != nil && (e.Idx == 0 || e.Idx == -1) {
+		// a call of a module function that is itself the whole-list sum of that field over its first parameter
+		// (cashu.Proofs.Amount): the call stands for the sum over its argument
+		if f := e.Call.Common().StaticCallee(); f != nil && sumFuncField(f) == field && field != "" {
+			return exprIs(arg(e, 0), x)
+		}
+		return false
+	}
 	if e == nil || e.K != "acc" || e.S != "+" || len(e.Args) != 2 {
 		return false
 	}
@@ -161,6 +169,43 @@ func flagFalseCond(helper *Ex) *Cond {
 	return &Cond{Name: "no overflow/underflow in " + short(helper.String(), 70), Match: func(f *Fact, o *Origins) bool {
 		return f.Kind == "bool" && !f.Pos && f.A.K == "call" && f.A.Call == want && f.A.Idx == 1
 	}}
+}
+
+// theProgram is the program under analysis (set by Load).
+var theProgram *Program
+
+var sumFuncMemo = map[*ssa.Function]string{}
+
+// sumFuncField returns F when every return of the module function f yields 0 + sum of elem(first parameter).F
+// over the whole list (a plain summing helper), else "".
+func sumFuncField(f *ssa.Function) string {
+	if v, ok := sumFuncMemo[f]; ok {
+		return v
+	}
+	sumFuncMemo[f] = ""
+	p := theProgram
+	if p == nil || f.Blocks == nil || f.Pkg == nil || !p.InModule(f.Pkg.Pkg.Path()) || len(f.Params) == 0 || f.Signature.Results().Len() != 1 {
+		return ""
+	}
+	o := p.OriginsOf(f)
+	field := ""
+	rets := Returns(f)
+	for _, r := range rets {
+		e := o.Of(r.Results[0])
+		if e == nil || e.K != "acc" || e.S != "+" || len(e.Args) != 2 || !isConst(e.Args[0], "0") || e.Args[1].K != "field" ||
+			!exprIs(e.Args[1].Args[0], "elem(P:"+f.Params[0].Name()+")") {
+			return ""
+		}
+		if field != "" && field != e.Args[1].S {
+			return ""
+		}
+		field = e.Args[1].S
+	}
+	if len(rets) == 0 {
+		return ""
+	}
+	sumFuncMemo[f] = field
+	return field
 }
 
 var _ ssa.Value
